@@ -1,3 +1,3 @@
-from . import grayconst, polarrank, primpolys
+from . import grayconst, polarrank, primpolys, thresholders
 
-ALL = [primpolys.generate, grayconst.generate, polarrank.generate]
+ALL = [primpolys.generate, grayconst.generate, polarrank.generate, thresholders.generate]
